@@ -94,6 +94,9 @@ RULE = ("symbolic run: structured replies (each TLV field of M2 present/absent/d
         "on one CompanionAPI / AP2Session / configuration, second answered by replaying the first or forged; "
         "forged replies also carry extra/optional/duplicated TLV items (every TlvValue tag, attacker-chosen values "
         "such as its own long-term key as PublicKey) in the sealed TLV and in the pairing data; "
+        "credential selection: extract_credentials over stored {none, HAP, legacy, transient} x advertised feature sets "
+        "vs the model, AirPlay connections with selected credentials (transport airplay-selected) and user-level "
+        "configurations whose AirPlay service advertises the pairing feature bits (Apple TV / HomePod models); "
         "distinct = (mode, transport or configuration+forged protocol, variant descriptor, session history)")
 ASSUMPTIONS = [
     "HAP credentials are present (service.credentials set): without credentials no pair-verify runs and no keys exist",
@@ -118,6 +121,7 @@ TRANSPORT_KDF = {
     "mrp": (b"MediaRemote-Salt", b"MediaRemote-Write-Encryption-Key", b"MediaRemote-Read-Encryption-Key"),
     "companion": (b"", b"ClientEncrypt-main", b"ServerEncrypt-main"),
     "airplay": (b"Control-Salt", b"Control-Write-Encryption-Key", b"Control-Read-Encryption-Key"),
+    "airplay-selected": (b"Control-Salt", b"Control-Write-Encryption-Key", b"Control-Read-Encryption-Key"),
 }
 
 
@@ -1242,7 +1246,22 @@ async def attempt_airplay(case, loop):
     null_send, null_recv = conn.send_processor, conn.receive_processor
     conn.connection_made(FakeTransport(airplay_accessory(case, loop, holder)))
     creds = parse_credentials(case.w.credentials_string())
-    if case.mode == "sym":
+    if case.v.get("advertise") is not None:
+        # what AirPlay's own callers do: credentials for the connection are SELECTED by
+        # extract_credentials(service) from the stored ones and the peer's advertised features
+        from pyatv.conf import ManualService
+        from pyatv.const import Protocol
+
+        service = ManualService("verif", Protocol.AirPlay, 7000, dict(case.v["advertise"]),
+                                credentials=case.w.credentials_string())
+        try:
+            creds = airplay_auth.extract_credentials(service)
+        except Exception as ex:
+            case.obs.exc = type(ex).__name__
+            case.obs.exc_chain = _exc_chain(ex)
+            conn.close()
+            return
+    if case.mode == "sym" and bytes(creds.atv_id):
         SpyBytes.log = case.log
         creds.atv_id = SpyBytes(creds.atv_id)
     try:
@@ -1303,12 +1322,25 @@ USER_CONFIGS = {
     "airplay(tunnel)+mrp(nocreds)": [("airplay", True), ("mrp", False)],
     "companion": [("companion", True)],
     "airplay(tunnel)": [("airplay", True)],
+    # HAP credentials stored, the peer advertises the (transient) pairing feature bits
+    "airplay(appletv,pairing-bits)+companion": [
+        ("airplay", True, {"model": "AppleTV6,2", "osvers": "14.5", "features": "0x00000000,0x00010800"}), ("companion", True)],
+    "airplay(homepod,pairing-bits)+companion": [
+        ("airplay", True, {"model": "AudioAccessory5,1", "osvers": "14.5", "features": "0x00000000,0x00010000"}), ("companion", True)],
+    "airplay(homepod,system-pairing)+mrp(nocreds)": [
+        ("airplay", True, {"model": "AudioAccessory1,1", "osvers": "15.0", "ft": "0x00000000,0x00000800"}), ("mrp", False)],
 }
+# configurations in which the pinned code opens no AirPlay control connection at connect time (a HomePod's
+# remote-control channel needs transient credentials, HAP ones are stored): pair-verify need not start, but
+# no keys may ever be installed for the impostor
+USER_VERIFY_OPTIONAL = {"airplay(homepod,pairing-bits)+companion", "airplay(homepod,system-pairing)+mrp(nocreds)"}
 # (config, protocol whose accessory presents the forged reply)
 USER_SLOTS = [
     ("mrp+companion", "mrp"), ("mrp+companion", "companion"), ("mrp(nocreds)+companion", "companion"),
     ("airplay(plain)+companion", "companion"), ("airplay(tunnel)+companion", "airplay"),
     ("airplay(tunnel)+mrp(nocreds)", "airplay"),
+    ("airplay(appletv,pairing-bits)+companion", "airplay"), ("airplay(homepod,pairing-bits)+companion", "airplay"),
+    ("airplay(homepod,system-pairing)+mrp(nocreds)", "airplay"),
 ]
 USER_HONEST = ["mrp+companion", "mrp(nocreds)+companion", "airplay(plain)+companion"]
 
@@ -1319,7 +1351,8 @@ class UserCase:
     def __init__(self, w, config, forged, variant):
         self.w, self.config, self.forged, self.v = w, config, forged, variant
         self.cases = {}
-        for proto, creds in USER_CONFIGS[config]:
+        for entry in USER_CONFIGS[config]:
+            proto, creds = entry[0], entry[1]
             c = Case(w, variant if proto == forged else {}, "real", proto)
             c.has_credentials = creds
             self.cases[proto] = c
@@ -1360,10 +1393,13 @@ async def attempt_user(u, loop):
     conf = AppleTV(ipaddress.ip_address("127.0.0.1"), "verif accessory")
     ports = {"mrp": 49152, "companion": 49153, "airplay": 7000}
     protos = {"mrp": Protocol.MRP, "companion": Protocol.Companion, "airplay": Protocol.AirPlay}
-    for proto, creds in USER_CONFIGS[u.config]:
+    for entry in USER_CONFIGS[u.config]:
+        proto, creds = entry[0], entry[1]
         props = {}
         if proto == "airplay" and creds:
             props = {"model": "AppleTV6,2", "osvers": "14.5", "features": "0x0"}
+        if len(entry) > 2:
+            props = dict(entry[2])
         conf.add_service(ManualService("verif-" + u.w.a_id.decode(), protos[proto], ports[proto], props,
                                        credentials=u.w.credentials_string() if creds else None))
     atv = None
@@ -1384,6 +1420,7 @@ async def attempt_user(u, loop):
 
 
 ATTEMPT = {"mrp": attempt_mrp, "companion": attempt_companion, "airplay": attempt_airplay,
+           "airplay-selected": attempt_airplay,
            "airplayv1-setup": attempt_airplayv1, "airplayv1-play": attempt_airplayv1}
 VERIFY_ONLY = ("airplayv1-setup", "airplayv1-play")  # call sites that verify without deriving keys
 
@@ -1872,6 +1909,75 @@ def hist_tag(hist):
     return "" if hist is None else ":second-session(%s,first=%s)" % (hist["relation"], canon_variant(hist["variant"]))
 
 
+BIT_SYSTEM_PAIRING, BIT_COREUTILS_PAIRING = 43, 48   # AirPlayFlags bits that mean "offers (transient) pairing"
+ADVERTISED = [
+    {"features": "0x0"},
+    {"features": "0x00000000,0x00000800"},      # SupportsSystemPairing
+    {"features": "0x00000000,0x00010000"},      # SupportsCoreUtilsPairingAndEncryption
+    {"ft": "0x4A7FCA00,0x00010800"},            # both, `ft` key, other bits as a HomePod/Apple TV sends
+    {"features": "0xFFFFFFFF,0xFFFFFFFF"},      # everything
+    {"features": "0x445F8A00,0x000004C0"},      # AirPlay 2 bits without the pairing ones
+]
+
+
+def advertises_pairing(adv):
+    raw = adv.get("features", adv.get("ft", "0x0"))
+    parts = raw.split(",")
+    value = int(parts[0], 16) | ((int(parts[1], 16) << 32) if len(parts) > 1 else 0)
+    return bool(value >> BIT_SYSTEM_PAIRING & 1 or value >> BIT_COREUTILS_PAIRING & 1)
+
+
+def selected_variants():
+    """AirPlay connections whose credentials go through extract_credentials(): HAP credentials stored,
+    every advertised feature set, the accessory honest or an impostor without the paired key."""
+    out = []
+    bases = [{}, {"signer": "B"}, {"signer": "B", "ident": "B"}, {"signer": "client"}, {"ident": "B"},
+             {"sig_mut": {"flip": 200}}, {"enc_mut": {"flip": 300}}, {"outer": "no_enc"}, {"replay": True},
+             {"signer": "B", "inner_add": [[3, "signer_ltpk", "last"]]}]
+    for adv in ADVERTISED:
+        for b in bases:
+            out.append(dict(b, advertise=adv))
+    return out
+
+
+def core_of(v):
+    return {k: x for k, x in v.items() if k != "advertise"}
+
+
+def run_selection(ctx):
+    """Correspondence for the credential-selection step: the real extract_credentials() over stored
+    credentials {none, HAP, legacy, transient} x advertised feature sets vs the Lean `extractCredentials`."""
+    from pyatv.auth.hap_pairing import AuthenticationType, parse_credentials
+    from pyatv.conf import ManualService
+    from pyatv.const import Protocol
+    from pyatv.protocols.airplay import auth as airplay_auth
+
+    w = World(ctx.rng.fork("selection"), RealCrypto())
+    stored = {"none": None, "hap": w.credentials_string(), "legacy": "aabbccdd:" + "11" * 32,
+              "transient": hx(b"transient") + ":::"}
+    rows = []
+    for name, cred in stored.items():
+        for adv in ADVERTISED:
+            service = ManualService("verif", Protocol.AirPlay, 7000, dict(adv), credentials=cred)
+            try:
+                got = airplay_auth.extract_credentials(service)
+                kind = {AuthenticationType.Null: "null", AuthenticationType.Transient: "transient",
+                        AuthenticationType.Legacy: "legacy", AuthenticationType.HAP: "hap"}[got.type]
+                if kind == "hap" and got != parse_credentials(cred):
+                    kind = "hap-but-not-the-stored-credentials"
+            except Exception as ex:
+                kind = "err:" + type(ex).__name__
+            rows.append((name, adv, kind))
+    answers = ctx.lean([f"select {name} {int(advertises_pairing(adv))}" for name, adv, _ in rows])
+    for (name, adv, kind), ans in zip(rows, answers):
+        ctx.case(["selection", name, json.dumps(adv, sort_keys=True)], name != "none")
+        ctx.note(f"selection:{name}:{'adv' if advertises_pairing(adv) else 'noadv'}->{kind}")
+        if kind != ans:
+            ctx.disagree({"mode": "selection", "stored": name, "advertise": adv}, kind, ans,
+                         where="extract_credentials: which credentials AirPlay verifies with")
+        ctx.validated()
+
+
 def canon_variant(v):
     return json.dumps(v, sort_keys=True)
 
@@ -1886,6 +1992,8 @@ def lean_line(w, transport, case):
     cx = getattr(case, "client_priv", None) or w.client_x
     m4 = build_m4(case.m4)
     m4w = "raise:" + case.m4 if m4 is None else "r:" + pd_word(*m4)
+    if transport == "airplay-selected":
+        transport = "airplay"   # stored HAP credentials: the model's selection is the identity (theorem)
     if transport in VERIFY_ONLY:
         return " ".join(["verify", "airplay", hx(w.a_ltpk), hx(w.client_ltsk), hx(w.a_id), hx(w.client_id),
                          hx(cx), hx(cr.x_pub(cx)), pdw, m4w])
@@ -1932,6 +2040,8 @@ def run_symbolic(ctx, only=None):
         for t in VERIFY_ONLY:
             for v in variants:
                 todo.append((t, v, w, None))
+        for v in selected_variants():
+            todo.append(("airplay-selected", v, w, None))
         todo += pair_entries(rng.fork("pairs"), sym)
     cases = []
     with Bench("sym") as bench:
@@ -1978,6 +2088,8 @@ def run_real(ctx, only=None):
         for t in VERIFY_ONLY:
             for v in ACCEPTABLE + STRUCTURAL + REAL_ONLY + extra_variants()[::3] + sample:
                 todo.append((t, v, w, None))
+        for v in selected_variants():
+            todo.append(("airplay-selected", v, w, None))
         todo += pair_entries(rng.fork("pairs"), real)
     with Bench("real") as bench:
         sessions = Sessions(bench)
@@ -1998,7 +2110,7 @@ def run_real(ctx, only=None):
                 ctx.note("client-traffic-besides-pair-verify")
             ctx.note(f"real:{t}:" + ("accept" if obs.exc is None else obs.exc))
             ctx.note("real-variant:" + what)
-            if t == "airplay" and obs.exc is not None:
+            if t in ("airplay", "airplay-selected") and obs.exc is not None:
                 ctx.note("airplay-exc:" + "<-".join(obs.exc_chain))
             ctx.case(["real", t, canon_variant(v), hist_tag(hist)], not ref,
                      sample={"mode": "real", "transport": t, "variant": v, "observed": obs.summary()} if not ref else None)
@@ -2028,11 +2140,11 @@ def run_real(ctx, only=None):
                              "a reply that does not prove the paired identity was accepted")
                 elif obs.enabled or obs.keys_after:
                     pass  # reported by check_consistency
-                elif t != "airplay" and obs.exc != "AuthenticationError":
+                elif t not in ("airplay", "airplay-selected") and obs.exc != "AuthenticationError":
                     ctx.fail(f"{t}:rejected-with-{obs.exc}:{what}", desc, obs.summary(),
                              "connect raises pyatv.exceptions.AuthenticationError",
                              f"forged reply rejected with {obs.exc} instead of an authentication error")
-            elif not v:
+            elif not core_of(v):
                 # non-vacuity: the unmodified reply must be accepted, with working keys
                 if obs.exc is not None or not obs.enabled:
                     ctx.disagree(desc, obs.summary(), "the honest accessory's unmodified reply is accepted",
@@ -2078,7 +2190,8 @@ def run_user(ctx, only=None):
             for n in sorted(rng.sample(range(bits // 8), ctx.scale(2, 8))):
                 variants += field_variants(field, {"trunc": n})
         for config, forged in USER_SLOTS:
-            for v in variants:
+            # where the pinned code opens no AirPlay control connection the reply variant cannot matter
+            for v in (variants[:6] if config in USER_VERIFY_OPTIONAL else variants):
                 todo.append((config, forged, v, w))
     with Bench("real") as bench:
         for config, forged, v, world in todo:
@@ -2104,8 +2217,15 @@ def run_user(ctx, only=None):
             ctx.case(["user", config, forged, canon_variant(v)], ref is False,
                      sample={"mode": "user", "config": config, "forged": forged, "variant": v, "observed": u.summary()})
             if fc.sent_pd is None:
-                ctx.disagree(desc, u.summary(), "the forged protocol's pair-verify is reached",
-                             where="user-level campaign: pair-verify of the forged protocol never started")
+                if fc.obs.enabled or u.keys_snapshot.get(forged):
+                    ctx.fail(f"user-connect:{config}:{forged}:keys-installed-without-pair-verify", desc, u.summary(),
+                             "credentials are stored: keys only after the accessory proved the paired identity",
+                             "encryption was switched on for an accessory that was never asked to prove the paired identity")
+                elif config not in USER_VERIFY_OPTIONAL:
+                    ctx.disagree(desc, u.summary(), "the forged protocol's pair-verify is reached",
+                                 where="user-level campaign: pair-verify of the forged protocol never started")
+                else:
+                    ctx.note("user:no-airplay-control-connection-at-connect")
                 continue
             if ref:
                 continue  # not a forged reply after all (never generated on purpose)
@@ -2189,6 +2309,7 @@ def run_reconnect(ctx, only=None):
 
 
 def run(ctx):
+    run_selection(ctx)
     run_symbolic(ctx)
     run_real(ctx)
     run_user(ctx)
